@@ -273,40 +273,57 @@ func c15Case(m *Model, v *Verdict, rng *RNG, idx int) {
 		det["model"] = mp
 		v.Violate("correspondence", "c15:parse-model:"+shape, "CCache.Unmarshal and its Lean model disagree on a rendered file", det)
 	}
-	// lookups
-	for _, c := range mdl.creds {
-		var pn types.PrincipalName
-		for _, x := range c.server.comps {
-			pn.NameString = append(pn.NameString, string(x))
-		}
-		e, ok := cc.GetEntry(pn)
-		v.Case("", "GetEntry")
-		// first credential with that server name
-		var first *ccCred
-		for i := range mdl.creds {
-			if fmt.Sprint(mdl.creds[i].server.comps) == fmt.Sprint(c.server.comps) {
-				first = &mdl.creds[i]
-				break
+	lookups := func(when string) {
+		for _, c := range mdl.creds {
+			var pn types.PrincipalName
+			for _, x := range c.server.comps {
+				pn.NameString = append(pn.NameString, string(x))
+			}
+			e, ok := cc.GetEntry(pn)
+			v.Case("", "GetEntry")
+			// first credential with that server name
+			var first *ccCred
+			for i := range mdl.creds {
+				if fmt.Sprint(mdl.creds[i].server.comps) == fmt.Sprint(c.server.comps) {
+					first = &mdl.creds[i]
+					break
+				}
+			}
+			if !ok || !cc.Contains(pn) || string(e.Ticket) != string(first.ticket) || string(e.Key.KeyValue) != string(first.key) {
+				v.Violate("failing-input", "c15:getentry"+when, "GetEntry/Contains do not return the first credential for the server principal", det)
 			}
 		}
-		if !ok || !cc.Contains(pn) || string(e.Ticket) != string(first.ticket) || string(e.Key.KeyValue) != string(first.key) {
-			v.Violate("failing-input", "c15:getentry", "GetEntry/Contains do not return the first credential for the server principal", det)
+		var absent types.PrincipalName
+		absent.NameString = []string{"no", "such", "service", "anywhere"}
+		if _, ok := cc.GetEntry(absent); ok || cc.Contains(absent) {
+			v.Violate("failing-input", "c15:getentry-absent"+when, "GetEntry finds a principal that is not in the cache", det)
 		}
 	}
-	var absent types.PrincipalName
-	absent.NameString = []string{"no", "such", "service", "anywhere"}
-	if _, ok := cc.GetEntry(absent); ok || cc.Contains(absent) {
-		v.Violate("failing-input", "c15:getentry-absent", "GetEntry finds a principal that is not in the cache", det)
-	}
+	lookups("")
 	nconf := 0
+	var wantTickets []string
 	for _, c := range mdl.creds {
 		if strings.HasPrefix(string(c.server.realm), "X-CACHECONF") {
 			nconf++
+		} else {
+			wantTickets = append(wantTickets, X(c.ticket))
 		}
 	}
-	if len(cc.GetEntries()) != len(mdl.creds)-nconf {
-		v.Violate("failing-input", "c15:getentries", "GetEntries does not filter exactly the configuration entries", det)
+	// GetEntries: exactly the non-configuration credentials, in file order; asking twice gives the same and
+	// leaves the cache as it was (the lookups still answer as before)
+	for pass := 1; pass <= 2; pass++ {
+		var gotTickets []string
+		for _, e := range cc.GetEntries() {
+			gotTickets = append(gotTickets, X(e.Ticket))
+		}
+		v.Case("", "GetEntries")
+		if fmt.Sprint(gotTickets) != fmt.Sprint(wantTickets) {
+			det["pass"] = fmt.Sprint(pass)
+			v.Violate("failing-input", fmt.Sprintf("c15:getentries:pass%d", pass), "GetEntries does not return exactly the non-configuration credentials in file order (second pass: the first call changed the cache)", det)
+			break
+		}
 	}
+	lookups(":after-getentries")
 	// malformed variants: no panic, and the Lean model agrees
 	for j := 0; j < 5; j++ {
 		mf := append([]byte{}, file...)
